@@ -225,6 +225,19 @@ def fam_c17(tier, seed):
                     sc = scenario("C17-g%03d" % len(scs), "C17", [], apps, horizon_ms=6 * T + 20, single=False)
                     sc["tags"] = ["queue", "giveup-window", "parked:%d" % parked, "probe:%s" % probe]
                     scs.append(sc)
+    # long timed receives (a quarter of a second): an unblock -- or a request -- in the middle of the wait ends it at once
+    TL = 250
+    for combo in (("timedL",), ("timedL", "recv"), ("timedL", "timedL"), ("timedLloop",)):
+        for ut in (50 * MS, 120 * MS, 249 * MS):
+            for pts in ([], [180 * MS]):
+                apps = []
+                for r in combo:
+                    apps.append(R_timed_once(TL) if r == "timedL" else (R_timed_loop(TL, 2) if r == "timedLloop" else recvs[r]()))
+                apps.append(unblocker(ut, 1))
+                cc = [simple_conn(c, 1, at_ns=t) for c, t in enumerate(pts)]
+                sc = scenario("C17-L%03d" % len(scs), "C17", cc, apps, horizon_ms=3 * TL + 50, single=False)
+                sc["tags"] = ["queue", "long-timeout", "unblock:1", "recv:" + "+".join(combo)]
+                scs.append(sc)
     # unblock() calls issued before anybody receives, then receivers that do not wait first (try_recv, or a timed call
     # that finds something queued): every token still releases exactly one call, none is swallowed with another
     # token or with a request
@@ -467,6 +480,8 @@ def _answer_plans(kind):
         "w2n": lambda: writer([5, 2000], flush="never"),
         "w3l": lambda: writer([1200, 1, 300], flush="last"),
         "wf1": lambda: {"ans": {"how": "writer", "status": 200, "parts": [30], "flush": "last", "flush_first": True}},
+        "wv2f": lambda: {"ans": {"how": "writer", "status": 200, "parts": [40, 1500], "flush": "each", "vectored": True}},
+        "wv1n": lambda: {"ans": {"how": "writer", "status": 200, "parts": [12], "flush": "never", "vectored": True}},
         "drop": lambda: drop(),
         "panic": lambda: panic(),
     }
@@ -495,22 +510,37 @@ def fam_c01(tier, seed, prop="C01"):
         # the shapes behind F1 are always present
         prods += [("r5", "w0", "r5"), ("r1025", "w0", "w2n"), ("w0", "r5"), ("r5", "w0"), ("r5", "wf1"), ("r1025", "wf1", "r5"), ("w2f", "wf1")]
     # longer pipelines: several writers in a row that never write before they are dropped
-    prods += [("r5", "w0", "w0", "r5"), ("r1025", "w0", "w0", "w2f"), ("w1f", "w0", "w0", "w0", "r5"), ("r5", "w0", "drop", "w0", "r5"), ("rbig", "w0", "w0", "rundecl")]
+    prods += [("r5", "wv2f"), ("r1025", "wv1n", "r5"), ("w2f", "wv2f"), ("rbig", "wv2f", "wv1n"),
+              ("r5", "w0", "w0", "r5"), ("r1025", "w0", "w0", "w2f"), ("w1f", "w0", "w0", "w0", "r5"), ("r5", "w0", "drop", "w0", "r5"), ("rbig", "w0", "w0", "rundecl")]
     # a response whose body reader fails part-way, at every position
     prods += [("rfe3",), ("rfp0",), ("rfe700", "r5"), ("rfp3", "r5"), ("r5", "rfe0", "r5"), ("r5", "rfp700", "w1f"), ("w2f", "rfe700", "drop"),
               ("r1025", "rfp3"), ("rfe0", "rfp0", "r5"), ("drop", "rfe3", "panic")]
     # (mode "spawn0": every request on its own thread, all starting at the same instant -- the scheduler alone decides
     #  how the parts of different responses interleave in time; in mode "spawn" the handlers start 1 ms apart)
+    jobs = []
     for combo in prods:
+        ordered = any(a == "w0" and b in ("w0", "drop") for a, b in zip(combo, combo[1:]))   # order-sensitive shapes
         for mode in ("spawn", "inline", "spawn0"):
-            if mode == "spawn0" and not (len(combo) <= 3 and any(n_ in ("w2f", "w2n", "w3l", "rbig", "rundecl", "r1025", "wf1") for n_ in combo)):
+            if mode == "spawn0" and not ordered and not (len(combo) <= 3 and any(n_ in ("w2f", "w2n", "w3l", "rbig", "rundecl", "r1025", "wf1", "wv2f", "wv1n") for n_ in combo)):
                 continue
-            delays = [0] * len(combo)
             if mode == "spawn":
-                # answer in a permuted order: delays are a permutation of 0, 1 ms, 2 ms
-                perm = list(range(len(combo)))
-                rng.shuffle(perm)
-                delays = [p * MS for p in perm]
+                # answer in a permuted order: delays are a permutation of 0, 1 ms, 2 ms ... (one random permutation; for
+                # the order-sensitive shapes -- unused writers in a row -- every permutation, or twelve of them)
+                allp = list(itertools.permutations(range(len(combo))))
+                if ordered:
+                    perms = allp if len(allp) <= 24 else [allp[0], allp[-1]] + _sample(rng, allp[1:-1], 10)
+                else:
+                    perm = list(range(len(combo)))
+                    rng.shuffle(perm)
+                    perms = [tuple(perm)]
+                for perm in perms:
+                    jobs.append((combo, mode, [p * MS for p in perm]))
+            else:
+                jobs.append((combo, mode, [0] * len(combo)))
+    for combo, mode, delays in jobs:
+        if True:
+            if False:
+                pass
             msgs = []
             # now and then one of the requests answered through respond() is a HEAD request (no body on the wire)
             headable = [i_ for i_, n_ in enumerate(combo) if n_ in ("r5", "r1023", "r1025", "rbig", "rundecl", "drop", "panic")]
@@ -696,7 +726,7 @@ def fam_c03(tier, seed):
                 # stream) in the middle of the body
                 ("zero-mid", [7, 0, 4096]),
                 # the helpers of std an application would normally use
-                ("std-read_to_end", "read_to_end"), ("std-copy", "copy")]
+                ("std-read_to_end", "read_to_end"), ("std-copy", "copy"), ("std-read_to_string", "read_to_string")]
     for tag, kw in _body_variants("thorough") + [("cl300000", dict(framing="cl", body_len=300000)),
                                                  ("ch300000", dict(framing="chunked", body_len=300000, chunks=[65536, 1, 100000]))]:
         for ptag, sizes in programs:
@@ -706,7 +736,7 @@ def fam_c03(tier, seed):
                 continue
             if ptag == "one" and kw["body_len"] > (1100 if tier == "quick" else 5000):
                 continue
-            if kw["body_len"] > 100000 and ptag not in ("kib", "huge", "zero-mid", "std-read_to_end", "std-copy"):
+            if kw["body_len"] > 100000 and ptag not in ("kib", "huge", "zero-mid", "std-read_to_end", "std-copy", "std-read_to_string"):
                 continue
             for follow, both, case in itertools.product(["none", "request", "garbage"], [False, True, "te-first"], ["std", "lower", "upper"]):
                 if both and kw["framing"] != "chunked":
@@ -793,6 +823,17 @@ def fam_c11(tier, seed):
             sc["tags"] = ["readahead", ptag, "pipe:" + "+".join(combo)] + (["small-only"] if small_only else [])
             scs.append(sc)
             k += 1
+    # the body is read to its end with one of std's helpers and the request is then kept: the successor must arrive
+    for helper in ("read_to_end", "read_to_string", "copy"):
+        for first in ("b1025", "chunked", "b1024"):
+            for nfollow in (1, 2):
+                msgs = [kinds[first]()] + [Msg() for _ in range(nfollow)]
+                msgs[0].plan = dict(keep(), read_std=helper)
+                d, j, ln = conn(msgs, 0)
+                sc = scenario("C11-%04d" % k, "C11", [(d, j, ln)], [{"prog": [{"op": "serve", "kind": "recv", "mode": "inline", "max_empty": 1, "ms": 0}]}], horizon_ms=100)
+                sc["tags"] = ["readahead", "std-read-helper", helper, "pipe:" + first + "+none" * nfollow]
+                scs.append(sc)
+                k += 1
     # several application threads already blocked in recv() (the usual worker arrangement), each keeping the request
     # it gets until the end: every request of the pipeline must reach one of them without any of them answering
     for nthreads in (2, 3, 4):
@@ -1601,7 +1642,8 @@ def fam_c14(tier, seed):
     # thousands of heads on one connection (every rejected or answered request must leave the thread's stack as it was)
     for tag, one in (("v2.0", b"GET /x HTTP/2.0\r\nHost: x\r\n\r\n"), ("v3.0-body", b"POST /x HTTP/3.0\r\nContent-Length: 2\r\n\r\nab"),
                      ("get", b"GET /c0m0 HTTP/1.1\r\nHost: x\r\n\r\n"), ("head", b"HEAD /c0m0 HTTP/1.1\r\nHost: x\r\n\r\n")):
-        for n in ((4000,) if tier == "quick" else (4000, 60000)):
+        # (answered requests are several trace events each: their count stays moderate; rejected ones leave no events)
+        for n in ((4000,) if tier == "quick" else ((4000, 60000) if tag.startswith("v") else (4000, 9000))):
             heads.append(("many-heads:%s:%d" % (tag, n), one * n + b"GET @URL@ HTTP/1.1\r\nHost: x\r\n\r\n", "ok"))
     for tag, raw, kind in heads:
         # outcome classes differ (delivered / 400 / close); C14 only looks at panics, aborts and allocation,
